@@ -398,6 +398,35 @@ def fixed_point_case(ctx, seed):
     return True
 
 
+def assembled_file_cases(ctx):
+    """Small files with empty tracks and one-message tracks in every position, put together each way a program can (tracks=
+    keyword, add_track, append, +, *, slices, copy ...): same type, same number of tracks, each track the fold of its events."""
+    n = 0
+    note = ('ch', 3, 0x90, [60, 64])
+    eot = ('meta', 0, 0x2F, [])
+    layouts = [(1, [[]]), (1, [[], []]), (1, [[note, eot], [], [note]]), (1, [[], [note, eot]]), (1, [[eot], [], [eot]]),
+               (0, [[]]), (0, [[eot]]), (0, [[note]]), (2, [[], [note, eot], []]), (2, [[]]), (1, []), (2, [])]
+    for how in genfile.ASSEMBLIES:
+        for fmt, tracks in layouts:
+            case = {'kind': 'assembled', 'how': how, 'type': fmt, 'tracks': [len(t) for t in tracks]}
+            try:
+                mid = genfile.midifile_of(fmt, 96, tracks, how=how)
+                ctx.check('header preserved', (mid.type, len(mid.tracks)) == (fmt, len(tracks)), 'assembled:file-differs-before-saving', case,
+                          lambda: [mid.type, len(mid.tracks)])
+                back = load_bytes(save_bytes(mid))
+                ctx.check('header preserved', (back.type, back.ticks_per_beat, len(back.tracks)) == (fmt, 96, len(tracks)), 'assembled:header', case,
+                          lambda: [back.type, back.ticks_per_beat, len(back.tracks)])
+                for ti, evs in enumerate(tracks):
+                    if ti < len(back.tracks):
+                        want = [genfile.msg_of_event(e) for e in smf.fold_eot(evs)]
+                        ctx.check('tracks == fold_eot(original)', same_msgs(list(back.tracks[ti]), want), 'assembled:track-differs', case,
+                                  lambda: {'track': ti, **first_diff(list(back.tracks[ti]), want)})
+            except Exception as exc:
+                ctx.fail('storable => saves', f'assembled:{type(exc).__name__}', case, f'{type(exc).__name__}: {exc}')
+            n += 1
+    return n
+
+
 def charset_sequence(ctx):
     """The same texts saved under two charsets in one process (state kept
     between saves would show)."""
@@ -570,6 +599,11 @@ def run(ctx):
         ctx.nontrivial(None, k)
         ctx.extra('failed_save_cases', k)
         n += k
+    if ctx.shard == 3 % ctx.nshards:
+        k = assembled_file_cases(ctx)
+        ctx.nontrivial(None, k)
+        ctx.extra('assembled_file_cases', k)
+        n += k
     if ctx.shard == 1 % ctx.nshards:
         k = big_track_cases(ctx)
         ctx.nontrivial(None, k)
@@ -605,5 +639,7 @@ def replay(ctx, case):
         big_track_cases(ctx)
     elif k == 'failed-save':
         failed_save_cases(ctx)
+    elif k == 'assembled':
+        assembled_file_cases(ctx)
     else:
         unstorable_cases(ctx)
